@@ -66,6 +66,15 @@ def _(E, m, a, c0):
     if E.branch(z3.Or(r < lo, r > hi)): raise Abort(f'attempt to {op.lower()} with overflow')
     return r
 
+# num-integer on machine words: floor division / modulus built from `/` and `%`, so they panic like them (zero divisor, MIN / -1)
+@pattern(r'<(i8|i16|i32|i64|isize|u8|u16|u32|u64|usize) as Integer>::(div_floor|mod_floor|div_mod_floor)')
+def _(E, m, a, c0):
+    ty, op = m.groups(); lo, hi = int_bounds(ty); x, y = E.deref(a[0]), E.deref(a[1])
+    if E.branch(y == 0): raise Abort('attempt to divide by zero')
+    if lo < 0 and E.branch(z3.And(x == lo, y == -1)): raise Abort('attempt to divide with overflow')
+    q, r = fdiv(x, y), fmod(x, y)
+    return q if op == 'div_floor' else r if op == 'mod_floor' else Tup([q, r])
+
 # ------------------------------------------------------------------ BigInt (op) primitive integer, either order
 _PRIM = r'(?:u8|u16|u32|u64|usize|i8|i16|i32|i64|isize|u128|i128)'
 @pattern(r'<&?(?:BigInt|' + _PRIM + r') as (Add|Sub|Mul|Div|Rem)<&?(?:BigInt|' + _PRIM + r')>>::\w+')
